@@ -202,6 +202,7 @@ func vc_C12_tosvg_faults() {
 // hold each written item exactly once, in order (same harnesses as C15).
 func vc_C11_todxf_sequence() { vc_C15_todxf() }
 func vc_C11_to3mf_sequence() { vc_C15_to3mf() }
+func vc_C11_to3mf_shared()   { vc_C15_to3mf_shared() }
 func vc_C11_tosvg_sequence() {
 	pat := [][]int{{1, 128, 1}, {130, 130}, {127, 1, 1}}[vfCase("pattern", 3)]
 	batches, all := vfMakeLines(pat, 0)
